@@ -1629,3 +1629,205 @@ Proof.
     apply In_shapes_to_remove in Hin. destruct Hin as [e [Hce [NL NF]]].
     destruct (H c e Hce) as [H1|H1]; [contradiction | congruence].
 Qed.
+
+(** ** well-formedness of the profile: unique keys at the three levels,
+    positive counters, no empty inner dictionary.  This is what lets a user
+    go from "an entry [(p, m)] of [c_direct e], an entry [(k, cd)] of [m], an
+    entry [(card, n)] of [cd]" (how the later stages iterate) to the lookup
+    form of (b). *)
+
+Definition pdict_wf (d : pdict) : Prop :=
+  NoDup (dkeys d) /\
+  Forall (fun pm : str * dict cdict =>
+            NoDup (dkeys (snd pm)) /\
+            Forall (fun kc : str * cdict => NoDup (ckeys (snd kc)) /\ cpos (snd kc)) (snd pm)) d.
+
+Definition pdict_ne (d : pdict) : Prop :=
+  Forall (fun pm : str * dict cdict =>
+            snd pm <> [] /\ Forall (fun kc : str * cdict => snd kc <> []) (snd pm)) d.
+
+Lemma pdict_wf_nil : pdict_wf [].
+Proof. split; constructor. Qed.
+
+Lemma pdict_ne_nil : pdict_ne [].
+Proof. constructor. Qed.
+
+Lemma pdict_wf_pincr d x : pdict_wf d -> pdict_wf (pincr d x).
+Proof.
+  destruct x as [[p k] c]. intros [ND FA]. unfold pincr. split.
+  - apply NoDup_dkeys_dupd. assumption.
+  - apply Forall_dupd; [assumption | |].
+    + intros m _ [NDm FAm]. cbn [snd] in *. split.
+      * apply NoDup_dkeys_dupd. assumption.
+      * apply Forall_dupd; [assumption | |].
+        -- intros cd _ [NDc PC]. cbn [snd] in *. split; [apply NoDup_ckeys_cincr | apply cpos_cincr]; assumption.
+        -- intros _. cbn. split; [constructor; [intros [] | constructor] | constructor; [cbn; lia | constructor]].
+    + intros _. cbn. split; [constructor; [intros [] | constructor]|].
+      constructor; [|constructor]. cbn.
+      split; [constructor; [intros [] | constructor] | constructor; [cbn; lia | constructor]].
+Qed.
+
+Lemma pdict_ne_pincr d x : pdict_ne d -> pdict_ne (pincr d x).
+Proof.
+  destruct x as [[p k] c]. intros FA. unfold pincr.
+  apply Forall_dupd; [assumption | |].
+  - intros m _ [NEm FAm]. cbn [snd] in *. split; [apply dupd_not_nil|].
+    apply Forall_dupd; [assumption | |].
+    + intros cd _ _. cbn [snd]. apply cincr_not_nil.
+    + intros _. cbn [snd]. apply cincr_not_nil.
+  - intros _. cbn [snd]. split; [apply dupd_not_nil|].
+    cbn. constructor; [cbn; discriminate | constructor].
+Qed.
+
+Lemma pdict_wf_fold_pincr l d : pdict_wf d -> pdict_wf (fold_left pincr l d).
+Proof.
+  revert d. induction l as [|x l IH]; intros d H; cbn; [assumption|].
+  apply IH. apply pdict_wf_pincr. assumption.
+Qed.
+
+Lemma pdict_ne_fold_pincr l d : pdict_ne d -> pdict_ne (fold_left pincr l d).
+Proof.
+  revert d. induction l as [|x l IH]; intros d H; cbn; [assumption|].
+  apply IH. apply pdict_ne_pincr. assumption.
+Qed.
+
+(** from entries to lookups *)
+Lemma pdict_wf_entry d p m k cd card n :
+  pdict_wf d -> In (p, m) d -> In (k, cd) m -> In (card, n) cd ->
+  dget d p = Some m /\ dget m k = Some cd /\ plook d p k card = n /\ 0 < n.
+Proof.
+  intros [ND FA] Hp Hk Hc.
+  rewrite Forall_forall in FA. destruct (FA _ Hp) as [NDm FAm]. cbn [snd] in *.
+  rewrite Forall_forall in FAm. destruct (FAm _ Hk) as [NDc PC]. cbn [snd] in *.
+  pose proof (In_dget_NoDup d p m ND Hp) as E1.
+  pose proof (In_dget_NoDup m k cd NDm Hk) as E2.
+  split; [assumption|]. split; [assumption|]. split.
+  - unfold plook. rewrite E1, E2. apply In_cget_NoDup; assumption.
+  - unfold cpos in PC. rewrite Forall_forall in PC. apply (PC (card, n)). assumption.
+Qed.
+
+(** a non-empty dictionary has an entry *)
+Lemma pdict_ne_pmem d : pdict_ne d -> d <> [] -> exists p k, pmem d p k = true.
+Proof.
+  intros NE H. destruct d as [|[p m] d]; [congruence|].
+  inversion NE as [|? ? [NEm _] _]. subst. cbn [snd] in NEm.
+  destruct m as [|[k cd] m]; [congruence|].
+  exists p, k. unfold pmem, dmem. cbn [dget]. rewrite str_eqb_refl. cbn [dget]. rewrite str_eqb_refl. reflexivity.
+Qed.
+
+Lemma pmem_not_nil d p k : pmem d p k = true -> d <> [].
+Proof. intros H E. subst. discriminate. Qed.
+
+Definition centry_wf (e : centry) : Prop :=
+  pdict_wf (c_direct e) /\ pdict_ne (c_direct e) /\ pdict_wf (c_inverse e) /\ pdict_ne (c_inverse e).
+
+Definition cprofile_wf (P : cprofile) : Prop :=
+  Forall (fun ce : str * centry => centry_wf (snd ce)) P.
+
+Lemma centry_wf_empty : centry_wf empty_centry.
+Proof. split; [apply pdict_wf_nil | split; [apply pdict_ne_nil | split; [apply pdict_wf_nil | apply pdict_ne_nil]]]. Qed.
+
+Lemma cprofile_wf_fold_for_class d cs : forall P,
+  cprofile_wf P -> cprofile_wf (fold_left (annotate_instance_for_class d) cs P).
+Proof.
+  induction cs as [|c0 cs IH]; intros P H; cbn [fold_left]; [assumption|].
+  apply IH. unfold annotate_instance_for_class. apply Forall_dupd; [assumption | |].
+  - intros e _ [W1 [W2 [W3 W4]]]. cbn [snd] in *. unfold centry_wf. cbn [c_direct c_inverse].
+    split; [apply pdict_wf_fold_pincr; assumption|].
+    split; [apply pdict_ne_fold_pincr; assumption|]. split; assumption.
+  - intros _. cbn [snd]. unfold centry_wf. cbn [c_direct c_inverse empty_centry].
+    split; [apply pdict_wf_fold_pincr, pdict_wf_nil|].
+    split; [apply pdict_ne_fold_pincr, pdict_ne_nil|]. split; [apply pdict_wf_nil | apply pdict_ne_nil].
+Qed.
+
+Lemma cprofile_wf_fold_inv_for_class d cs : forall P,
+  cprofile_wf P -> cprofile_wf (fold_left (annotate_instance_inv_for_class d) cs P).
+Proof.
+  induction cs as [|c0 cs IH]; intros P H; cbn [fold_left]; [assumption|].
+  apply IH. unfold annotate_instance_inv_for_class. apply Forall_dupd; [assumption | |].
+  - intros e _ [W1 [W2 [W3 W4]]]. cbn [snd] in *. unfold centry_wf. cbn [c_direct c_inverse].
+    split; [assumption|]. split; [assumption|].
+    split; [apply pdict_wf_fold_pincr; assumption | apply pdict_ne_fold_pincr; assumption].
+  - intros _. cbn [snd]. unfold centry_wf. cbn [c_direct c_inverse empty_centry].
+    split; [apply pdict_wf_nil|]. split; [apply pdict_ne_nil|].
+    split; [apply pdict_wf_fold_pincr, pdict_wf_nil | apply pdict_ne_fold_pincr, pdict_ne_nil].
+Qed.
+
+Lemma cprofile_wf_annotate_instance tau inv P e :
+  cprofile_wf P -> cprofile_wf (annotate_instance tau inv P e).
+Proof.
+  intros H. unfold annotate_instance. destruct inv.
+  - apply cprofile_wf_fold_inv_for_class. apply cprofile_wf_fold_for_class. assumption.
+  - apply cprofile_wf_fold_for_class. assumption.
+Qed.
+
+Lemma cprofile_wf_build tau inv L : forall P,
+  cprofile_wf P -> cprofile_wf (build_profile tau inv L P).
+Proof.
+  unfold build_profile.
+  induction L as [|ie L IH]; intros P H; cbn [fold_left]; [assumption|].
+  apply IH. apply cprofile_wf_annotate_instance. assumption.
+Qed.
+
+(** the raw profile is well-formed, whatever the instance dictionary *)
+Theorem raw_profile_wf cfg I ID P1 C0 :
+  raw_profile cfg I ID = (P1, C0) -> cprofile_wf P1.
+Proof.
+  unfold raw_profile. destruct (init_annotated I (init_targets (targets_of cfg))) as [P0 C0'] eqn:HI.
+  intros E. injection E as <- _.
+  destruct (init_char _ _ _ _ HI) as [_ [_ [EP _]]].
+  apply cprofile_wf_build. apply Forall_forall. intros ce Hce.
+  rewrite Forall_forall in EP. rewrite (EP ce Hce). apply centry_wf_empty.
+Qed.
+
+Lemma cprofile_wf_dget P c e : cprofile_wf P -> dget P c = Some e -> centry_wf e.
+Proof.
+  intros H E. apply dget_In in E. unfold cprofile_wf in H. rewrite Forall_forall in H. apply (H (c, e) E).
+Qed.
+
+Section ProfileEntries.
+  Variables (cfg : pcfg) (I : insts) (G : graph).
+  Let tau := p_tau cfg.
+  Let inv := p_inverse cfg.
+
+  (** *** (b), entry-wise: every number stored in the raw profile is the
+      declarative count, and is positive; "has features" means some count is
+      positive *)
+  Theorem profile_entries_char ID P1 C0 :
+    NoDup (dkeys I) ->
+    annotate_all tau inv G (adapt I) = inl ID ->
+    raw_profile cfg I ID = (P1, C0) ->
+    forall c e, dget P1 c = Some e ->
+      centry_wf e /\
+      (forall p m k cd card n, In (p, m) (c_direct e) -> In (k, cd) m -> In (card, n) cd ->
+         n = occ Direct tau I G c p k card /\ 0 < n) /\
+      (c_direct e <> [] <-> exists p k card, 0 < occ Direct tau I G c p k card) /\
+      (inv = true ->
+       (forall p m k cd card n, In (p, m) (c_inverse e) -> In (k, cd) m -> In (card, n) cd ->
+          n = occ Inverse tau I G c p k card /\ 0 < n) /\
+       (c_inverse e <> [] <-> exists p k card, 0 < occ Inverse tau I G c p k card)).
+  Proof.
+    intros NDI HA HR c e He.
+    pose proof (cprofile_wf_dget P1 c e (raw_profile_wf cfg I ID P1 C0 HR) He) as W.
+    destruct W as [W1 [W2 [W3 W4]]].
+    destruct (profile_counts_char cfg I G ID P1 C0 NDI HA HR) as [_ [_ [_ [_ HB]]]].
+    destruct (HB c e He) as [LD [MD RI]]. fold tau in LD, MD, RI. fold inv in RI.
+    split; [exact (conj W1 (conj W2 (conj W3 W4)))|]. split.
+    { intros p m k cd card n Hp Hk Hc.
+      destruct (pdict_wf_entry _ p m k cd card n W1 Hp Hk Hc) as [_ [_ [E Pn]]].
+      split; [rewrite <- LD; symmetry; assumption | assumption]. }
+    split.
+    { split.
+      - intros NE. destruct (pdict_ne_pmem _ W2 NE) as [p [k Hm]].
+        apply MD in Hm. destruct Hm as [card Hc]. exists p, k, card. assumption.
+      - intros [p [k [card Hc]]]. apply (pmem_not_nil _ p k). apply MD. exists card. assumption. }
+    intros Einv. rewrite Einv in RI. destruct RI as [LI MI]. split.
+    { intros p m k cd card n Hp Hk Hc.
+      destruct (pdict_wf_entry _ p m k cd card n W3 Hp Hk Hc) as [_ [_ [E Pn]]].
+      split; [rewrite <- LI; symmetry; assumption | assumption]. }
+    split.
+    - intros NE. destruct (pdict_ne_pmem _ W4 NE) as [p [k Hm]].
+      apply MI in Hm. destruct Hm as [card Hc]. exists p, k, card. assumption.
+    - intros [p [k [card Hc]]]. apply (pmem_not_nil _ p k). apply MI. exists card. assumption.
+  Qed.
+End ProfileEntries.
